@@ -26,3 +26,23 @@ PROPS["C14"] = dict(
         J("c14_int_decode_fixed", bound="every 9-byte buffer", encodes=["Int::from_bytes", "read_nint", "Int::as_negative"]),
     ],
 )
+
+HL = {"refcbor": 70, "common": 70, "c11::": 70, "memcmp": 70}  # harness-side byte loops (reference encoder, compare)
+PROPS["C11"] = dict(
+    bounds="Shelley kinds: network 0..15, both credential kinds, all hash bytes, pointer triples over all u64; "
+           "strict parser: every non-Byron byte string of <= 34 bytes and base-address candidates of 55..60 bytes; "
+           "embedded parser: every carried byte string of <= 34 bytes",
+    assumptions=["Byron headers (0b1000) are excluded from the Shelley harnesses; Bech32/Base58 text forms are outside the bound"],
+    e1=[
+        J("c11_enc_base", bound="kind base; net<16; both credential kinds; all hash bytes", encodes=["Address::to_bytes", "kind", "network_id", "payment_cred"], unwind_fn=HL, mem_gb=10),
+        J("c11_rt_base", bound="kind base; net<16; both credential kinds; all hash bytes", encodes=["Address::from_bytes", "BaseAddress::from_address"], unwind_fn=HL, mem_gb=10, timeout_s=900),
+        J("c11_enc_enterprise", bound="kind enterprise; net<16; both credential kinds; all hash bytes", encodes=["Address::to_bytes", "kind", "network_id", "payment_cred"], unwind_fn=HL, mem_gb=10),
+        J("c11_rt_enterprise", bound="kind enterprise; net<16; both credential kinds; all hash bytes", encodes=["Address::from_bytes", "EnterpriseAddress::from_address"], unwind_fn=HL, mem_gb=10, timeout_s=900),
+        J("c11_enc_reward", bound="kind reward; net<16; both credential kinds; all hash bytes", encodes=["Address::to_bytes", "kind", "network_id", "payment_cred"], unwind_fn=HL, mem_gb=10),
+        J("c11_rt_reward", bound="kind reward; net<16; both credential kinds; all hash bytes", encodes=["Address::from_bytes", "RewardAddress::from_address"], unwind_fn=HL, mem_gb=10, timeout_s=900),
+        J("c11_pointer_roundtrip", bound="pointer triple: all u64^3", encodes=["variable_nat_encode", "variable_nat_decode", "Address::decode_pointer", "PointerAddress"], unwind_fn=HL),
+        J("c11_strict_parse_short", bound="every byte string of length 0..34, header != Byron", encodes=["Address::from_bytes_internal_impl(strict)"], unwind_fn=HL, timeout_s=1800, mem_gb=16),
+        J("c11_strict_parse_base", bound="length 55..60, header nibble 0..3", encodes=["Address::from_bytes_internal_impl(strict)"], unwind_fn=HL, timeout_s=1800, mem_gb=16),
+        J("c11_embedded_verbatim_short", bound="carried byte string of length 0..34", encodes=["Address::deserialize", "from_bytes_impl_unsafe"], unwind_fn=HL, timeout_s=1800, mem_gb=16),
+    ],
+)
